@@ -12,6 +12,8 @@ from pyvc.smt import VRef, Val, fresh, get_ref, is_ref
 from pyvc.values import SV, sv_bool, sv_ref
 
 DC = z3.Function("deepcopy_of", smt.I, smt.I, smt.B)      # DC(new, old)
+CP_LO = z3.Function("copy_lo", smt.I, smt.I)     # the allocation interval [lo, hi) of the deepcopy call that returned this root
+CP_HI = z3.Function("copy_hi", smt.I, smt.I)
 REACH = z3.Function("reachable_node", smt.I, smt.I, smt.B)  # REACH(root, r): r is a mutable node of the structure rooted at root
 
 
@@ -23,8 +25,13 @@ def dc_axioms(h, base, top):
     f = lambda name, r: z3.Select(h.field_arr(name), r)
     new = z3.And(base <= a, a < top)
     ax = []
+    # DC is ONE relation for all deepcopy calls of a path: every axiom below speaks about the pairs of THIS call only
+    # (copy in [base, top)).  Unscoped, the axioms of a second call would put the copies of the first into the second
+    # interval and re-assert "copy equals source" for copies the program has modified since: an inconsistent path
+    # condition, i.e. vacuous proofs for every iteration but the first (found when reviewing the model; the obligations
+    # of the functions that copy were re-discharged after the repair).
     # every copy is a new object of the same class; sources existed before
-    ax.append(z3.ForAll([a, b], z3.Implies(DC(a, b), z3.And(new, b < base, b >= 0, TYP(a) == TYP(b))), patterns=[DC(a, b)]))
+    ax.append(z3.ForAll([a, b], z3.Implies(z3.And(DC(a, b), new), z3.And(b < base, b >= 0, TYP(a) == TYP(b))), patterns=[DC(a, b)]))
     # distinct sources have distinct copies within one deepcopy call (memo) — and one source one copy
     c, d = z3.Ints("dc_c dc_d")
     ax.append(z3.ForAll([a, b, c, d], z3.Implies(z3.And(DC(a, b), DC(c, d), new, base <= c, c < top), (a == c) == (b == d)),
@@ -32,28 +39,28 @@ def dc_axioms(h, base, top):
 
     def val_copy(vn, vo):
         # a stored value is copied: references to mutable objects by DC, everything else is shared
-        return z3.If(is_ref(vo), z3.And(is_ref(vn), DC(get_ref(vn), get_ref(vo))), vn == vo)
+        return z3.If(is_ref(vo), z3.And(is_ref(vn), DC(get_ref(vn), get_ref(vo)), base <= get_ref(vn), get_ref(vn) < top), vn == vo)
     # lists / tuples
     for kind in ("list", "tuple"):
-        ax.append(z3.ForAll([a, b], z3.Implies(z3.And(DC(a, b), TYP(b) == T(kind)),
+        ax.append(z3.ForAll([a, b], z3.Implies(z3.And(DC(a, b), new, TYP(b) == T(kind)),
                                                z3.And(h.llen(a) == h.llen(b), h.llen(b) >= 0)), patterns=[DC(a, b)]))
-    ax.append(z3.ForAll([a, b, i], z3.Implies(z3.And(DC(a, b), z3.Or(TYP(b) == T("list"), TYP(b) == T("tuple")), 0 <= i, i < h.llen(b)),
+    ax.append(z3.ForAll([a, b, i], z3.Implies(z3.And(DC(a, b), new, z3.Or(TYP(b) == T("list"), TYP(b) == T("tuple")), 0 <= i, i < h.llen(b)),
                                               val_copy(h.lget(a, i), h.lget(b, i))),
                         patterns=[z3.MultiPattern(DC(a, b), h.lget(a, i)), z3.MultiPattern(DC(a, b), h.lget(b, i))]))
     # Tree / Token
-    ax.append(z3.ForAll([a, b], z3.Implies(z3.And(DC(a, b), TYP(b) == T("Tree")),
+    ax.append(z3.ForAll([a, b], z3.Implies(z3.And(DC(a, b), new, TYP(b) == T("Tree")),
                                            z3.And(f("data", a) == f("data", b), val_copy(f("children", a), f("children", b)))),
                         patterns=[DC(a, b)]))
-    ax.append(z3.ForAll([a, b], z3.Implies(z3.And(DC(a, b), TYP(b) == T("Token")),
+    ax.append(z3.ForAll([a, b], z3.Implies(z3.And(DC(a, b), new, TYP(b) == T("Token")),
                                            z3.And(f("type", a) == f("type", b), f("value", a) == f("value", b))),
                         patterns=[DC(a, b)]))
     # dicts: same keys in the same order, values copied
-    ax.append(z3.ForAll([a, b], z3.Implies(z3.And(DC(a, b), TYP(b) == T("dict")),
+    ax.append(z3.ForAll([a, b], z3.Implies(z3.And(DC(a, b), new, TYP(b) == T("dict")),
                                            z3.And(h.dlen(a) == h.dlen(b), h.dkeys(a) == h.dkeys(b),
                                                   z3.Select(h.arr["dhas"], a) == z3.Select(h.arr["dhas"], b),
                                                   z3.Select(h.arr["didx"], a) == z3.Select(h.arr["didx"], b))),
                         patterns=[DC(a, b)]))
-    ax.append(z3.ForAll([a, b, k], z3.Implies(z3.And(DC(a, b), TYP(b) == T("dict"), h.dhas(b, k)), val_copy(h.dget(a, k), h.dget(b, k))),
+    ax.append(z3.ForAll([a, b, k], z3.Implies(z3.And(DC(a, b), new, TYP(b) == T("dict"), h.dhas(b, k)), val_copy(h.dget(a, k), h.dget(b, k))),
                         patterns=[z3.MultiPattern(DC(a, b), h.dget(a, k)), z3.MultiPattern(DC(a, b), h.dget(b, k))]))
     return ax
 
@@ -90,10 +97,11 @@ def deepcopy(eng, s, args, kwargs):
     # everything reachable from a deep copy is part of the copy (immutable values apart)
     rr = z3.Int("dcr_r")
     s.assume(z3.ForAll([rr], z3.Implies(REACH(get_ref(res), rr), z3.And(base <= rr, rr < new.alloc)), patterns=[REACH(get_ref(res), rr)]))
+    here = z3.And(base <= get_ref(res), get_ref(res) < new.alloc, CP_LO(get_ref(res)) == base, CP_HI(get_ref(res)) == new.alloc)
     if x.ty is None:
-        s.assume(z3.If(is_ref(x.t), z3.And(is_ref(res), DC(get_ref(res), get_ref(x.t))), res == x.t))
+        s.assume(z3.If(is_ref(x.t), z3.And(is_ref(res), DC(get_ref(res), get_ref(x.t)), here), res == x.t))
         return [(SV(res, None), s)]
-    s.assume(is_ref(res), DC(get_ref(res), x.ref))
+    s.assume(is_ref(res), DC(get_ref(res), x.ref), here)
     return [(SV(res, x.ty), s)]
 
 
@@ -118,3 +126,39 @@ def reach_fresh(eng, st, root):
     v = eng.as_val(st, root)
     return sv_bool(z3.ForAll([r], z3.Implies(REACH(get_ref(v.t), r), z3.And(r >= eng.entry_alloc, r < st.heap.alloc)),
                              patterns=[REACH(get_ref(v.t), r)]))
+
+
+@spec_function()
+def reach_below(eng, st, root, node):
+    """every mutable node of the structure rooted at `root` was allocated before `node` (two private copies made one
+    after the other do not overlap)"""
+    r = z3.Int("rb_r")
+    v, n = eng.as_val(st, root), eng.as_val(st, node)
+    return sv_bool(z3.ForAll([r], z3.Implies(REACH(get_ref(v.t), r), r < get_ref(n.t)), patterns=[REACH(get_ref(v.t), r)]))
+
+
+@spec_function()
+def copy_lo(eng, st, root):
+    from pyvc.values import sv_int
+    return sv_int(CP_LO(get_ref(eng.as_val(st, root).t)))
+
+
+@spec_function()
+def copy_hi(eng, st, root):
+    from pyvc.values import sv_int
+    return sv_int(CP_HI(get_ref(eng.as_val(st, root).t)))
+
+
+@spec_function()
+def reach_within(eng, st, root):
+    """every mutable node of the copy rooted at `root` lies in the allocation interval of the call that made it"""
+    r = z3.Int("rw_r")
+    x = get_ref(eng.as_val(st, root).t)
+    return sv_bool(z3.ForAll([r], z3.Implies(REACH(x, r), z3.And(CP_LO(x) <= r, r < CP_HI(x))), patterns=[REACH(x, r)]))
+
+
+@spec_function()
+def heap_alloc(eng, st):
+    """the allocation counter of the current state (everything allocated so far lies below it)"""
+    from pyvc.values import sv_int
+    return sv_int(st.heap.alloc)
